@@ -540,7 +540,9 @@ func runC07(t *testing.T, r *kit.Run) {
 		}
 		switch {
 		case cl.err == nil:
-			if !(delivered >= total && sawFalse) {
+			// nil is right after a complete scan: every object delivered and the end of input seen by a Scan - or by
+			// Header() when the input is empty (Header reads an empty stream to its end, which completes the scan)
+			if !(delivered >= total && (sawFalse || len(data) == 0)) {
 				r.Out.Violate(cls+"/err-nil-after-stop", "%s: Err()==nil after the stop although only %d of %d objects were delivered", desc, delivered, total)
 				return
 			}
